@@ -416,7 +416,17 @@ def r03_7(ctx: Ctx, rule: str = "R03.7") -> None:
                     ends.add(txt(node.slice))
         if ends == {"0", "-1"}:
             closing.append(call)
-    after = [c for c in closing if getattr(c, "lineno", 0) > getattr(sweep, "end_lineno", 0)]
+    # "after the sweep" is a matter of control flow, not of line numbers (an inlined predicate keeps its own lines)
+    scfg = CFG(func)
+    reached = scfg.reach([scfg.n(sweep)])
+    after = []
+    for c in closing:
+        stmt = next((a for a in _anc(c, func) if isinstance(a, ast.stmt)), None)
+        try:
+            if stmt is not None and scfg.n(stmt) in reached and not any(a is sweep for a in _anc(c, func)):
+                after.append(c)
+        except KeyError:
+            continue
     ctx.ob(rule, CP, after[0] if after else sweep, qual, "closing comparison", bool(after),
            "after the sweep over the sorted, cutoff-extended cores the last group is compared with the first (and merged), "
            "because an extended core that crosses the origin sorts first while reaching the clusters that sort last",
